@@ -35,11 +35,12 @@ def rcid_in(rcmap, tok):
 
 
 def queries(rcmap):
-    """-> list of (coq query term, version, http path)"""
+    """-> list of (coq query term, version, http path); the versions sit on both sides of every
+    microversion at which the representation changes (1.1, 1.6, 1.9, 1.12, 1.14, 1.19, 1.28, 1.38)"""
     out = []
     for u in range(1, gen.N_RP + 1):
         base = '/resource_providers/%s' % ops.uuid_of(u)
-        for v in (0, 14, 39):
+        for v in (0, 13, 14, 39):
             out.append(('(QRp %d)' % u, v, base))
         for v in (0, 39):
             out.append(('(QInvs %d)' % u, v, base + '/inventories'))
@@ -47,14 +48,14 @@ def queries(rcmap):
             out.append(('(QInv %d %s)' % (u, ops.z(rcid_in(rcmap, tok))), 0,
                         base + '/inventories/' + ops.rc_name(tok)))
         out.append(('(QRpUsages %d)' % u, 0, base + '/usages'))
-        for v in (0, 28, 39):
+        for v in (0, 27, 28, 39):
             out.append(('(QRpAllocs %d)' % u, v, base + '/allocations'))
-        for v in (0, 12, 39):
+        for v in (0, 5, 6, 12, 39):
             out.append(('(QRpTraits %d)' % u, v, base + '/traits'))
-        for v in (0, 12, 19, 39):
+        for v in (0, 1, 18, 19, 39):
             out.append(('(QRpAggs %d)' % u, v, base + '/aggregates'))
     for c in range(1, gen.N_CONS + 2):
-        for v in (0, 12, 28, 38, 39):
+        for v in (0, 11, 12, 27, 28, 37, 38, 39):
             out.append(('(QConsAllocs %d)' % c, v, '/allocations/' + ops.uuid_of(c, ops.K_CONS)))
     for p in PROJECTS:
         for w in USERS:
@@ -64,8 +65,12 @@ def queries(rcmap):
             q = lambda ct: '(QUsages %d %s %s)' % (p, ops.oz(w), ops.oz(ct))     # noqa: E731
             if p == 1 and w is None:
                 out.append((q(None), 0, path))                                   # 404 below 1.9
+                out.append((q(None), 8, path))
+                out.append((q(None), 9, path))
                 out.append((q(1), 12, path + '&consumer_type=TYPE1'))            # 400 below 1.38
+                out.append((q(CT_ALL), 37, path + '&consumer_type=all'))
             out.append((q(None), 12, path))
+            out.append((q(None), 37, path))
             for ct in CTYPES:
                 name = {None: None, CT_ALL: 'all', CT_UNKNOWN: 'unknown'}.get(ct, 'TYPE%s' % ct)
                 out.append((q(ct), 38, path + ('&consumer_type=' + name if name else '')))
